@@ -25,6 +25,7 @@ VALUE_ERR = -3
 BADNAME = '<not a string>'
 BAD_NAMES = [None, b'', 0, (), b'n', 1.5, False]
 DEFAULT = object()
+DEFAULTS = [DEFAULT, object(), object()]
 
 
 def fget(f, k):
@@ -43,6 +44,11 @@ class Result:
     def __init__(self, v, args):
         self.v = v
         self.args = args
+
+    def __bool__(self):
+        # adapters may be falsy objects (empty containers): only None means
+        # "no adapter"
+        return self.v.vid % 2 == 1
 
 
 class V:
@@ -185,6 +191,7 @@ class World:
                     self.reg[i + 1].__bases__ = tuple(self.reg[m] for m in b)
         self.vals = {}
         self.objs = {}
+        self.dflt = DEFAULT
         self.eqclass = job.get('eqclass')
 
     def val(self, vid):
@@ -278,8 +285,10 @@ class World:
 
     # ---- queries
     def vid(self, x):
-        if x is DEFAULT:
+        if x is self.dflt:
             return NONE
+        if any(x is d for d in DEFAULTS):
+            return 'a default passed to an EARLIER call'
         if isinstance(x, V):
             return x.vid
         return 'foreign:%r' % (x,)
@@ -301,23 +310,32 @@ class World:
         r = self.reg[g]
         P = self.prov[p]
         specs = self.req(req)
+        # a different default object on every call (defaults are returned by
+        # identity and never cached), sometimes none at all
+        k = rnd.randrange(len(DEFAULTS) + 1)
+        if k == len(DEFAULTS):
+            self.dflt = None
+            dargs = ()
+        else:
+            self.dflt = DEFAULTS[k]
+            dargs = (self.dflt,)
         if via == 'lookup':
-            return self.vid(r.lookup(tuple(specs), P, name, DEFAULT)), None
+            return self.vid(r.lookup(tuple(specs), P, name, *dargs)), None
         if via == 'lookup_list':
-            return self.vid(r.lookup(list(specs), P, name, DEFAULT)), None
+            return self.vid(r.lookup(list(specs), P, name, *dargs)), None
         if via == 'lookup_lazy':
-            return self.vid(r.lookup(LazySeq(specs), P, name, DEFAULT)), None
+            return self.vid(r.lookup(LazySeq(specs), P, name, *dargs)), None
         if via == 'lookup1':
-            return self.vid(r.lookup1(specs[0], P, name, DEFAULT)), None
+            return self.vid(r.lookup1(specs[0], P, name, *dargs)), None
         objs = [self.ob(s) for s in req]
         if via in ('hook', 'queryAdapter'):
             if via == 'hook':
-                res = r.adapter_hook(P, objs[0], name, DEFAULT)
+                res = r.adapter_hook(P, objs[0], name, *dargs)
             else:
-                res = r.queryAdapter(objs[0], P, name, DEFAULT)
+                res = r.queryAdapter(objs[0], P, name, *dargs)
         else:
-            res = r.queryMultiAdapter(objs, P, name, DEFAULT)
-        if res is DEFAULT:
+            res = r.queryMultiAdapter(objs, P, name, *dargs)
+        if res is self.dflt:
             return ('default', None)
         if isinstance(res, Result):
             bad = None
